@@ -1,58 +1,7 @@
 ---------------------------- MODULE NixAxis ----------------------------
-(***************************************************************************)
-(* Position-to-index conversion along one dimension (C07; reused by the    *)
-(* retrieval modules for C05, C06, C17).                                   *)
-(*                                                                         *)
-(* An axis is abstracted to its ORDER: n modelled coordinates with indices *)
-(* 0..n-1 (relative to a window the harness places on a concrete axis),    *)
-(* optionally one more coordinate below the window (lo) and - for kinds    *)
-(* that continue upward without bound (sampled, set without labels) - one  *)
-(* more above.  A position is a code q in 0..2n:                           *)
-(*   q = 2i+1 : exactly on coordinate i                                    *)
-(*   q = 2i   : strictly between coordinate i-1 and coordinate i           *)
-(*   q = 0    : below coordinate 0,   q = 2n : above coordinate n-1        *)
-(* The conversion rules are stated on the order only, as in the property.  *)
-(***************************************************************************)
-EXTENDS NixCommon
-
-Kinds == {"sampled", "range", "setL", "set0", "frame"}
-Rules == {"Less", "LessOrEqual", "Equal", "GreaterOrEqual", "Greater"}
-Modes == {"Inclusive", "Exclusive"}
-
-Coord(i) == 2 * i + 1
-Unbounded(k) == k \in {"sampled", "set0"}
-
-\* indices that exist on the abstract axis (window plus the optional neighbours)
-Idx(k, n, lo) == (IF lo THEN -1 ELSE 0)..(IF Unbounded(k) THEN n ELSE n - 1)
-
-\* result: [some |-> BOOLEAN, idx |-> Int]
-NoIdx == [some |-> FALSE, idx |-> 0]
-Some(i) == [some |-> TRUE, idx |-> i]
-
-IndexOf(k, n, lo, q, r) ==
-  LET I  == Idx(k, n, lo)
-      LT == {i \in I : Coord(i) < q}    LE == {i \in I : Coord(i) <= q}
-      EQ == {i \in I : Coord(i) = q}
-      GE == {i \in I : Coord(i) >= q}   GT == {i \in I : Coord(i) > q}
-  IN CASE r = "Less"           -> IF LT = {} THEN NoIdx ELSE Some(SetMax(LT))
-       [] r = "LessOrEqual"    -> IF LE = {} THEN NoIdx ELSE Some(SetMax(LE))
-       [] r = "Equal"          -> IF EQ = {} THEN NoIdx ELSE Some(SetMax(EQ))
-       [] r = "GreaterOrEqual" -> IF GE = {} THEN NoIdx ELSE Some(SetMin(GE))
-       [] r = "Greater"        -> IF GT = {} THEN NoIdx ELSE Some(SetMin(GT))
-
-\* a start/end pair: (GE(start), LE(end)) inclusive, (GE(start), Less(end)) exclusive;
-\* valid iff start <= end and the pair is ordered
-RangeOf(k, n, lo, s, e, m) ==
-  LET a == IndexOf(k, n, lo, s, "GreaterOrEqual")
-      b == IndexOf(k, n, lo, e, IF m = "Inclusive" THEN "LessOrEqual" ELSE "Less")
-  IN IF s <= e /\ a.some /\ b.some /\ a.idx <= b.idx
-       THEN [some |-> TRUE, lo |-> a.idx, hi |-> b.idx]
-       ELSE [some |-> FALSE, lo |-> 0, hi |-> 0]
-
-\* RangeDimension::positionInRange
-InRange(n, q) == IF n = 0 THEN "NoRange" ELSE IF q < Coord(0) THEN "Less"
-                 ELSE IF q > Coord(n - 1) THEN "Greater" ELSE "InRange"
-
+(* Case table of the position-to-index rules of NixAxisDefs (C07): every (kind, window, position code, rule) *)
+(* and every (start, end, mode); each case is an initial state, one Eval step emits case + expected result.  *)
+EXTENDS NixAxisDefs
 ---------------------------------------------------------------------------
 CONSTANTS MaxN
 
